@@ -40,7 +40,7 @@ class RedisServer(object):
 
     def _expire_now(self, key):
         t = self.expiry.get(key)
-        if t is not None and self.sim.now >= t:
+        if t is not None and self.sim.now > t:    # Redis: keyIsExpired() is `now > when`
             self.expiry.pop(key, None)
             if key in self.data:
                 del self.data[key]
@@ -108,7 +108,7 @@ class RedisServer(object):
             return 0
         self.expiry[key] = self.sim.now + float(ttl)
         # the server's active expiry: does not keep a simulation from being quiescent
-        it = self.sim.call_at(self.expiry[key], lambda: self._expire_now(key), None, kind="redis-expire", label=key)
+        it = self.sim.call_at(self.expiry[key] + 0.001, lambda: self._expire_now(key), None, kind="redis-expire", label=key)
         it.periodic = True
         return 1
 
